@@ -6,6 +6,7 @@ import time
 import z3
 
 FIRST_TRY_MS = 3000
+LAMBDA_FREE_FIRST_MS = 1000
 OUT_TMP = os.path.join(os.path.dirname(os.path.dirname(os.path.abspath(__file__))), "out", "tmp")
 
 
@@ -50,7 +51,7 @@ def run_cvc5(smt2, timeout_s):
 def solve_one(ob, timeout_ms=10000, use_cvc5=True, recheck_cvc5=False):
     """-> dict(name, status, backend, time_s, model)"""
     t0 = time.time()
-    if solve_without_lambdas(ob["pc"], ob["goal"], timeout_ms=min(timeout_ms, FIRST_TRY_MS)) == "unsat":
+    if solve_without_lambdas(ob["pc"], ob["goal"], timeout_ms=min(timeout_ms, LAMBDA_FREE_FIRST_MS)) == "unsat":
         return {"name": ob["name"], "status": "unsat", "backend": "z3(hypotheses with lambda terms dropped)", "time_s": round(time.time() - t0, 4),
                 "model": None, "meta": ob.get("meta", {})}
     s = z3.Solver()
